@@ -7,7 +7,7 @@ from .. import scenario
 ID = "C04"
 LEVEL = "exploration"
 RULE = ("five case families: (0) SIZE boundaries of the file format - string literals of 250 ... 70 000 bytes around every power of two, functions capturing up to 300 variables, files with up to 1 200 functions, names of 1 000 characters, class and method names (function labels) of up to 300 characters, jumps over 12 000 statements, literals with 1 000 elements, 250 parameters - each with a computed expected output; (0b) REPEATED LABELS - same-named classes in two function bodies, in the if and the else block, at module level and inside a function, same-named inner functions and methods, with the first, the second or both in use (differential only); (1) every .ms file of the repository's example corpus as entry point of a copy of its directory; "
-        "(1a) a FIRST-STATEMENT family: every looping / branching statement as the first statement of a program and of a function body of every kind (parameterless, with a parameter, void, closure, method, constructor, callback, function in a list); (1a') a LAST-STATEMENT family: the same statements as the last statement of a program and of a void function body of every kind; (1a'') a FILE-NAME family: one program under 21 entry file names (dots in the stem, upper case, leading dot, blanks, non-ASCII, punctuation, names of other artefacts); (1b) a RECOMPILE family: the same programs compiled into a directory that already holds the bytecode of an earlier, longer program under the same file name (the edit / recompile cycle); "
+        "(1a) a FIRST-STATEMENT family: every looping / branching statement as the first statement of a program and of a function body of every kind (parameterless, with a parameter, void, closure, method, constructor, callback, function in a list); (1a') a LAST-STATEMENT family: the same statements as the last statement of a program and of a void function body of every kind; (1a'') a FILE-NAME family: one program under 27 entry file names and path spellings (dots in the stem, upper case, leading dot, blanks, non-ASCII, punctuation, names of other artefacts, `./`, sub-directories); (1b) a RECOMPILE family: the same programs compiled into a directory that already holds the bytecode of an earlier, longer program under the same file name (the edit / recompile cycle); "
         "(2) programs from the generators of C01, C07, C08, C12, C13, C15 and the two-module failing programs of C17 "
         "(Hypothesis); (3) 80 string VALUES that read like tokens of another lexical class (numbers in every spelling, booleans, keywords, instruction / register / label names, paths, comment openers); every ASCII character (0-127) and seven further code points alone, doubled, embedded and next to a quote / backslash / space; EXHAUSTIVELY all string literals up to length 3 (quick: + a seeded sample of length 4; thorough: all "
         "of length 4) over the alphabet {quote, backslash, space, TAB, LF, CR, n, r, t, a, e-acute, emoji, NBSP, U+3000, VT, NUL} in escaped and raw "
@@ -378,7 +378,9 @@ def last_statement_cases():
 
 
 ENTRY_NAMES = ["shapes.v2.ms", "two.dots.here.ms", "UPPER.ms", "MiXed.Case.ms", ".hidden.ms", "a b.ms", "\u00e9t\u00e9.ms", "x.mmm.ms", "x.transpiled.ms", "x.ms.ms", "a,b.ms",
-               "a;b.ms", "a=b.ms", "a+b.ms", "a'b.ms", "a&b.ms", "(x).ms", "[x].ms", "1.ms", "__module__.ms", "main.main.ms"]
+               "a;b.ms", "a=b.ms", "a+b.ms", "a'b.ms", "a&b.ms", "(x).ms", "[x].ms", "1.ms", "__module__.ms", "main.main.ms",
+               # the same file reached through other SPELLINGS of its path (the same spelling for every command)
+               "./main.ms", "././main.ms", "sub/main.ms", "./sub/main.ms", "sub/./main.ms", "sub/deeper/main.ms"]
 
 
 def file_name_cases():
